@@ -106,7 +106,7 @@ Proof. vm_compute. reflexivity. Qed.
 
 Definition check_c05 (c : c05case) : list nat :=
   match c with
-  | C05Step cc => (if agrees cc then [] else [1%nat]) ++ reasons_in [2; 3; 4; 5]%nat cc ++ (match cc with CClientWedged _ _ _ => [11%nat] | _ => [] end)
+  | C05Step cc => (if agrees cc then [] else [1%nat]) ++ reasons_in [2; 3; 4; 5; 13]%nat cc ++ (match cc with CClientWedged _ _ _ => [11%nat] | _ => [] end)
   | C05Srv sc => SrvSpec.check_c05srv sc
   | C05Srv2 sc bs br => SrvSpec.check_c05srv2 sc bs br
   | C05Free n ids pairs =>
